@@ -8,6 +8,7 @@ import SfxModel.ExtOps
 import SfxModel.ExtBits
 import SfxModel.ExtSerde
 import SfxModel.ExtFrom
+import SfxModel.ExtCast
 /-
   Main.lean — line-protocol driver.  stdin: the Rust harness' output, one `request => answer` per line.
   For every line: recompute the answer with the model (projected to the build profile given as the first
@@ -59,6 +60,7 @@ def wqAnswer (spec : Bool) (prof : Profile) (L : Layout) (fn : String) (args : L
 def modelOf (prof : Profile) (L : Layout) (op : String) (args : List String) : Option String :=
   if let some fn := wqOp op then wqAnswer false prof L fn args
   else if ExtFrom.isOp op then ExtFrom.model prof L op args
+  else if ExtCast.isOp op then ExtCast.model prof L op args   -- extension Cast (`az` feature)
   else if op == "wprog" then (DriverWrap.run L prof args).map (·.1)
   else if op == "fprog" then (ExtOps.run L prof args).map (·.1)
   else if ExtSerde.isOp op then ExtSerde.model L op args   -- extension Serde
@@ -76,6 +78,7 @@ def modelOf (prof : Profile) (L : Layout) (op : String) (args : List String) : O
 def specOf (prof : Profile) (L : Layout) (op : String) (args : List String) : Option String :=
   if let some fn := wqOp op then wqAnswer true prof L fn args
   else if ExtFrom.isOp op then ExtFrom.spec prof L op args
+  else if ExtCast.isOp op then ExtCast.spec prof L op args   -- extension Cast (`az` feature)
   else if op == "wprog" then (DriverWrap.run L prof args).map (·.2)
   else if op == "fprog" then (ExtOps.run L prof args).map (·.2)
   else if ExtSerde.isOp op then ExtSerde.spec L op args   -- extension Serde
@@ -93,6 +96,7 @@ def argsInRange (L : Layout) (op : String) (args : List String) : Bool :=
   -- operands of typed arithmetic requests are bit patterns of the layout (the driver rejects others)
   if (wqOp op).isSome then args.all (fun a => match a.toInt? with | some i => decide (inRange L i) | none => false)
   else if ExtSerde.isOp op then ExtSerde.argsOk L op args   -- extension Serde: a bit pattern, or a hex string
+  else if ExtCast.isOp op then ExtCast.argsOk L op args   -- extension Cast: operands are values of the source type
   else if ExtBits.handles op then (match args.mapM String.toInt? with | some ints => ExtBits.argsOk L op ints | none => false)   -- extension Bits: shift amounts are `u32` / `T` values
   else if op.startsWith "h_div_rem_from" || op.startsWith "t_" || isTextOp op || op == "wprog" || op == "fprog" || op == "decode" || op.startsWith "from_" || isConvOp op || ExtFrom.isOp op then true
   else args.all (fun a => match a.toInt? with | some i => decide (inRange L i) | none => true)
